@@ -514,6 +514,8 @@ def _flatten(v, ev):
         e = v[1]
         x = e if is_int(e) else ev(e)
         return [x % P]
+    if k == "ptr":
+        return ["ptr"]
     if k == "struct":
         out = []
         for x in v[1]:
@@ -524,7 +526,14 @@ def _flatten(v, ev):
         s = sel if is_int(sel) else ev(sel)
         i = idx if idx is not None else sels.index(s)
         return [s] + _flatten(d[i], ev)
-    raise AssertionError(k)
+    if k == "box":
+        return ["ptr"] + _flatten(v[1], ev)
+    if k == "array":
+        out = ["ptr", "ptr"]
+        for x in v[1]:
+            out += _flatten(x, ev)
+        return out
+    return [k]
 
 
 c06_worker = wrap(_c06)
